@@ -291,6 +291,7 @@ func typedCall(r *Rng, rt, et string, n int, reuse bool) Case {
 	case "BS":
 		c.Kind, c.A, c.HasB, c.B = "BS", typedMat(r, n, "tri"), true, typedVec(r, n)
 		c.InSitu, c.InSituA = reuse || r.Bool(), reuse || r.Bool()
+		c.AliasX = r.Intn(3) == 0 // round 7: solve in place (InSitu.X = b)
 	}
 	return c
 }
